@@ -1,3 +1,22 @@
+import Oracle.C01
+import Oracle.C02
+import Oracle.C03
+import Oracle.C04
+import Oracle.C05
+import Oracle.C06
+import Oracle.C07
+import Oracle.C08
+import Oracle.C09
+import Oracle.C10
+import Oracle.C11
+import Oracle.C12
+import Oracle.C13
+import Oracle.C14
+import Oracle.C15
+import Oracle.C16
+import Oracle.C17
+import Oracle.C18
+import Oracle.C19
 import Oracle.C20
 /-!
 Line-protocol oracle. One request per line, tab-separated: `<cmd>\t<field>...`.
@@ -13,7 +32,26 @@ def dispatch (line : String) : String :=
   | [] => "empty\t-\t-"
   | cmd :: f =>
     let r : String × String × String :=
-      if cmd.startsWith "C20." then OracleC20.handle cmd f
+      if cmd.startsWith "C01." then OracleC01.handle cmd f
+      else if cmd.startsWith "C02." then OracleC02.handle cmd f
+      else if cmd.startsWith "C03." then OracleC03.handle cmd f
+      else if cmd.startsWith "C04." then OracleC04.handle cmd f
+      else if cmd.startsWith "C05." then OracleC05.handle cmd f
+      else if cmd.startsWith "C06." then OracleC06.handle cmd f
+      else if cmd.startsWith "C07." then OracleC07.handle cmd f
+      else if cmd.startsWith "C08." then OracleC08.handle cmd f
+      else if cmd.startsWith "C09." then OracleC09.handle cmd f
+      else if cmd.startsWith "C10." then OracleC10.handle cmd f
+      else if cmd.startsWith "C11." then OracleC11.handle cmd f
+      else if cmd.startsWith "C12." then OracleC12.handle cmd f
+      else if cmd.startsWith "C13." then OracleC13.handle cmd f
+      else if cmd.startsWith "C14." then OracleC14.handle cmd f
+      else if cmd.startsWith "C15." then OracleC15.handle cmd f
+      else if cmd.startsWith "C16." then OracleC16.handle cmd f
+      else if cmd.startsWith "C17." then OracleC17.handle cmd f
+      else if cmd.startsWith "C18." then OracleC18.handle cmd f
+      else if cmd.startsWith "C19." then OracleC19.handle cmd f
+      else if cmd.startsWith "C20." then OracleC20.handle cmd f
       else ("unknown-cmd", "-", "-")
     r.1 ++ "\t" ++ r.2.1 ++ "\t" ++ r.2.2
 
